@@ -1,6 +1,6 @@
 (* C06/Property.v — property theorems only. *)
 From Coq Require Import String List Bool.
-From Verif Require Import Base.Str Base.Py Base.Py2 C06.Model C06.Spec C06.Proofs C06.Reflect C06.Source C06.Source2.
+From Verif Require Import Base.Str Base.Py Base.Py2 C06.Model C06.Spec C06.Proofs C06.Reflect C06.Methods C06.Source C06.Source2.
 From VerifGen Require Import C06Tables C06Src C06Src2.
 
 (* C06: for every outstanding set, InResponseTo placement, status, version and shape the modelled
@@ -109,6 +109,42 @@ Theorem c06_configured_spec_b_sound : forall s y v, spec_c_b s y v = true -> spe
 Proof. exact spec_c_b_sound. Qed.
 Print Assumptions c06_configured_spec_b_sound.
 
+(* C06 over confirmation methods: whatever Method each SubjectConfirmation names (bearer, holder-of-key with or
+   without a KeyInfo, sender-vouches, a method the receiver does not know), in every assertion, encrypted or not, over
+   every binding and set-up, the decision of the code as it is now satisfies the property: "EVERY subject-confirmation
+   InResponseTo equals it" is read without regard to the method.  No guard. *)
+Theorem c06_methods : forall s ym, spec_cm s ym (receive_cfg_m s ym).
+Proof. exact c06_methods_configured_holds. Qed.
+Print Assumptions c06_methods.
+
+(* with bearer confirmations only this layer is the one below, model and specification, plus the strict reading of
+   "every" (a SubjectConfirmationData without InResponseTo does not answer the request either): nothing was weakened *)
+Theorem c06_methods_bearer_model : forall s ym, all_bearer (methods ym) = true -> receive_cfg_m s ym = receive_cfg s (base ym).
+Proof. exact receive_cfg_m_bearer. Qed.
+Print Assumptions c06_methods_bearer_model.
+
+Theorem c06_methods_bearer_spec : forall ym v, all_bearer (methods ym) = true ->
+  (spec_dm ym v <-> spec_d (base ym) v /\ (browser (via (base ym)) = true -> every_data_answers (resp (base ym)) v)).
+Proof. exact spec_dm_bearer. Qed.
+Print Assumptions c06_methods_bearer_spec.
+
+(* were the repeat of the InResponseTo test in get_subject to look at bearer confirmations only, an ENCRYPTED assertion
+   whose holder-of-key confirmation answers another outstanding request would be accepted with the context of the
+   Response's request ... *)
+Theorem c06_bearer_only_check_refuted : exists ym, ~ spec_dm ym (receive_m_bearer ym).
+Proof. exact bearer_only_check_refuted. Qed.
+Print Assumptions c06_bearer_only_check_refuted.
+
+(* ... while in clear the test made in loads() is blind to the method already: whichever methods the repeat looks at,
+   the decision is the same *)
+Theorem c06_methods_in_clear : forall chk ym, forallb negb (sealed (base ym)) = true -> receive_mf chk ym = receive_m ym.
+Proof. exact methods_in_clear. Qed.
+Print Assumptions c06_methods_in_clear.
+
+Theorem c06_methods_spec_b_sound : forall s ym v, spec_cm_b s ym v = true -> spec_cm s ym v.
+Proof. exact spec_cm_b_sound. Qed.
+Print Assumptions c06_methods_spec_b_sound.
+
 (* regenerated-table obligations: every defined status code maps to the error class its name
    demands; codes and classes are pairwise distinct; the table covers all 21 codes *)
 Theorem c06_table_names :
@@ -173,3 +209,15 @@ Theorem c06_source_option_is_effective_allow : forall attr v, ascii_opt v ->
   end.
 Proof. exact src_option_is_effective_allow. Qed.
 Print Assumptions c06_source_option_is_effective_allow.
+
+
+(* ... and the repeat of the InResponseTo test at the head of AuthnResponse.get_subject (the if statement between the
+   attesting-entity test and the loop over the confirmations, as it reads NOW) raises UnsolicitedResponse exactly when
+   the Response answers an outstanding request over an asynchronous hop and some SubjectConfirmationData - whatever
+   Method its confirmation names - does not answer the same request: the test of Model.one_assertion_m *)
+Theorem c06_source_subject_repeat_check : forall asyn x l, plain_dict x = true ->
+  src2_subject_repeat_check (enc_response asyn x) (enc_subject l)
+  = if asyn && match answered x with Some i => negb (sc_all_match_m every_method i l) | None => false end
+    then PExc "UnsolicitedResponse" else PNone.
+Proof. exact src_subject_repeat_check. Qed.
+Print Assumptions c06_source_subject_repeat_check.
